@@ -107,7 +107,9 @@ def expected(pmap, target, exists, overwrite, explicit, vm):
 def _setup(pmap, target, exists):
     files = {f"t{i}.zot": template_text(i) for i in range(len(PATTERNS))}
     files["tx.zot"] = template_text("x")
-    if exists:
+    if exists == 2:
+        files[_resolved(target)] = ""  # an existing file of zero bytes is an existing file
+    elif exists:
         files[_resolved(target)] = "# existing page\n\n- 240101#E1 precious user text\n"
     return Z.make_zdir(files, "c16")
 
@@ -412,10 +414,12 @@ def _cases(ctx):
     cases = []
     for pmap in maps:
         for ti in range(len(TARGETS)):
-            for exists in (False, True):
+            for exists in (False, True, 2):
                 for overwrite in (False, True):
                     for explicit in (False, True):
                         for vi in range(len(VARMAPS)):
+                            if exists == 2 and (vi or len(pmap) > 1):
+                                continue
                             if ctx.quick and len(pmap) == 2 and vi >= 2 and overwrite:
                                 continue
                             if ctx.quick and ti >= 7 and (explicit or vi == 1):
@@ -433,7 +437,7 @@ def _cases(ctx):
         for ti in range(len(TARGETS)):
             if ti == 6:
                 continue
-            for exists in (False, True):
+            for exists in (False, True, 2):
                 for overwrite in (False, True):
                     explicit = (ti + len(pmap)) % 2 == 0
                     cases.append(["cli", pmap, ti, exists, overwrite, explicit, (ti + overwrite + len(pmap)) % 3])
